@@ -10,13 +10,17 @@
 //          (most significant first; TLC integers are 32-bit).
 //  "vec" : interprets the actions of AlignedVec.tla on two real
 //          rkcommon::containers::AlignedVector<T> (T chosen by "variant":
-//          c1 = char, i4 = int, s12 = 12-byte struct, s64 = 64-byte struct) and on
-//          aligned_allocator<T>::allocate directly.
+//          c1 = char, i4 = int, f8 = double, s12 = 12-byte struct, s64 = 64-byte struct,
+//          nest = self-recursive node type, vany = std::vector<rkcommon::utility::Any>,
+//          trk = lifetime-instrumented type) and on aligned_allocator<T>::allocate directly.
 //
 // The driver decides nothing: it reports pointers, byte counts, contents.
+#include <cmath>
 #include <cstdint>
 #include <cstring>
+#include <initializer_list>
 #include <new>
+#include <set>
 #include <stdexcept>
 #include <string>
 #include <vector>
@@ -24,6 +28,7 @@
 #include "rkcommon/containers/AlignedVector.h"
 #include "rkcommon/containers/aligned_allocator.h"
 #include "rkcommon/memory/malloc.h"
+#include "rkcommon/utility/Any.h"
 
 #if defined(__SANITIZE_ADDRESS__)
 #include <sanitizer/lsan_interface.h>
@@ -257,16 +262,107 @@ struct HeapWorld : IWorld
 struct S12
 {
   int a, b, c;
+  bool operator==(const S12 &o) const { return a == o.a && b == o.b && c == o.c; }
 };
 struct S64
 {
   int w[16];
+  bool operator==(const S64 &o) const { return memcmp(w, o.w, sizeof w) == 0; }
 };
 static_assert(sizeof(S12) == 12, "S12 must be 12 bytes");
 static_assert(sizeof(S64) == 64, "S64 must be 64 bytes");
 
-// model value <-> element.  0 <-> the value-initialised element (all bytes zero);
-// an element whose redundant fields disagree decodes to -1000 - (first field).
+// a self-recursive value type (like a JSON / variant node): it can be built from a list of itself, so
+// "T{t}" and "T(t)" are different things for it.  Abstract value: (v, number of kids); a copy must have no kids.
+struct Nest
+{
+  int v;
+  std::vector<Nest> kids;
+  Nest() : v(0) {}
+  Nest(int x) : v(x) {}
+  Nest(const Nest &) = default;
+  Nest &operator=(const Nest &) = default;
+  Nest(std::initializer_list<Nest> l) : v(-1), kids(l) {}
+  bool operator==(const Nest &o) const { return v == o.v && kids == o.kids; }
+};
+
+// a std type with an initializer_list constructor whose list element is constructible from the type itself
+typedef std::vector<rkcommon::utility::Any> VAny;
+
+// lifetime-instrumented element: every object registers its address; construction on a live address,
+// destruction / reading of a dead one and the kind of constructor used are counted.
+struct Tracked
+{
+  struct Counters
+  {
+    long ctorOnLive, dtorOnDead, useOfDead, intCtor, listCtor, defCtor, copies, moves, assigns;
+  };
+  static Counters &c()
+  {
+    static Counters k = {0, 0, 0, 0, 0, 0, 0, 0, 0};
+    return k;
+  }
+  static std::set<const void *> &live()
+  {
+    static std::set<const void *> s;
+    return s;
+  }
+  int value;
+  void reg()
+  {
+    if (!live().insert(this).second)
+      ++c().ctorOnLive;
+  }
+  int read() const
+  {
+    if (!live().count(this))
+      ++c().useOfDead;
+    return value;
+  }
+  Tracked() : value(0)
+  {
+    reg();
+    ++c().defCtor;
+  }
+  explicit Tracked(int x) : value(x)
+  {
+    reg();
+    ++c().intCtor;
+  }
+  Tracked(const Tracked &o) : value(o.read())
+  {
+    reg();
+    ++c().copies;
+  }
+  Tracked(Tracked &&o) : value(o.read())
+  {
+    reg();
+    ++c().moves;
+  }
+  Tracked(std::initializer_list<Tracked> l) : value(-500 - (int)l.size())
+  {
+    reg();
+    ++c().listCtor;
+  }
+  Tracked &operator=(const Tracked &o)
+  {
+    if (!live().count(this))
+      ++c().useOfDead;
+    value = o.read();
+    ++c().assigns;
+    return *this;
+  }
+  ~Tracked()
+  {
+    if (!live().erase(this))
+      ++c().dtorOnDead;
+    value = -777;
+  }
+  bool operator==(const Tracked &o) const { return value == o.value; }
+};
+
+// model value <-> element.  0 <-> the value-initialised element T(); an element whose redundant parts
+// disagree (or that is not what a copy of a client value can be) decodes to a value <= -1000.
 template <typename T>
 struct Enc;
 template <>
@@ -280,6 +376,13 @@ struct Enc<int>
 {
   static int to(long long x) { return (int)x; }
   static long long from(const int &c) { return (long long)c; }
+};
+template <>
+struct Enc<double>
+{
+  // 9 <-> -0.0: equal to T() = +0.0 under ==, but not the same element
+  static double to(long long x) { return x == 9 ? -0.0 : (double)x; }
+  static long long from(const double &d) { return (d == 0.0 && std::signbit(d)) ? 9 : (long long)d; }
 };
 template <>
 struct Enc<S12>
@@ -309,11 +412,77 @@ struct Enc<S64>
     return s.w[0];
   }
 };
+template <>
+struct Enc<Nest>
+{
+  static Nest to(long long x) { return Nest((int)x); }
+  static long long from(const Nest &n) { return n.kids.empty() ? n.v : -1000 - (long long)n.kids.size(); }
+};
+template <>
+struct Enc<VAny>
+{
+  static VAny to(long long x)
+  {
+    VAny v;
+    if (x != 0)
+      v.push_back(rkcommon::utility::Any((int)x));
+    return v;
+  }
+  static long long from(const VAny &v)
+  {
+    if (v.empty())
+      return 0;
+    if (v.size() == 1 && v[0].is<int>())
+      return v[0].get<int>();
+    return -1000 - (long long)v.size();
+  }
+};
+template <>
+struct Enc<Tracked>
+{
+  static Tracked to(long long x) { return Tracked((int)x); }
+  static long long from(const Tracked &t) { return t.read(); }
+};
+
+template <typename T>
+struct Life
+{
+  static void begin() {}
+  static void report(Json &) {}
+};
+template <>
+struct Life<Tracked>
+{
+  static long &convAtBegin()
+  {
+    static long v = 0;
+    return v;
+  }
+  static void begin() { convAtBegin() = Tracked::c().intCtor + Tracked::c().listCtor; }
+  static void report(Json &o)
+  {
+    Json l = Json::object();
+    l.set("live", (long long)Tracked::live().size());
+    l.set("ctor_on_live", (long long)Tracked::c().ctorOnLive);
+    l.set("dtor_on_dead", (long long)Tracked::c().dtorOnDead);
+    l.set("use_of_dead", (long long)Tracked::c().useOfDead);
+    l.set("conv_ctor", (long long)(Tracked::c().intCtor + Tracked::c().listCtor - convAtBegin()));
+    o.set("life", l);
+    o.set("copies", (long long)Tracked::c().copies);
+    o.set("moves", (long long)Tracked::c().moves);
+  }
+};
 
 template <typename T>
 struct VecWorld : IWorld
 {
   AlignedVector<T> v[2];
+
+  VecWorld()
+  {
+    Tracked::Counters z = {0, 0, 0, 0, 0, 0, 0, 0, 0};
+    Tracked::c()        = z; // (objects of an earlier world are gone: its vectors were destroyed)
+  }
 
   Json items(int i) const
   {
@@ -323,38 +492,46 @@ struct VecWorld : IWorld
     return a;
   }
 
-  Json step(const Json &act) override
+  // the container call itself; every client value is built before Life<T>::begin() and dies before the report
+  void perform(const std::string &a, const Json &arg, Json &o)
   {
-    const std::string &a = act["a"].str();
-    const Json &arg     = act["arg"];
-    Json o              = Json::object();
-    const T *before[2]  = {v[0].data(), v[1].data()};
     int i               = arg.has("i") ? (int)arg["i"].num() - 1 : 0;
     AlignedVector<T> &t = v[i];
     AlignedVector<T> &u = v[1 - i];
+    T val               = Enc<T>::to(arg.has("x") ? arg["x"].num() : 0);
+    Life<T>::begin();
     o.set("ret", "void");
     if (a == "PushBack") {
-      t.push_back(Enc<T>::to(arg["x"].num()));
+      t.push_back(val);
+    } else if (a == "PushBackRv") {
+      t.push_back(std::move(val));
+    } else if (a == "PushBackOwn") {
+      t.push_back(t[0]);
     } else if (a == "PopBack") {
       t.pop_back();
     } else if (a == "Resize") {
       t.resize((size_t)arg["n"].num());
     } else if (a == "ResizeVal") {
-      t.resize((size_t)arg["n"].num(), Enc<T>::to(arg["x"].num()));
+      t.resize((size_t)arg["n"].num(), val);
     } else if (a == "Reserve") {
       t.reserve((size_t)arg["n"].num());
     } else if (a == "ShrinkToFit") {
       t.shrink_to_fit();
     } else if (a == "Assign") {
-      t.assign((size_t)arg["n"].num(), Enc<T>::to(arg["x"].num()));
+      t.assign((size_t)arg["n"].num(), val);
     } else if (a == "AssignFrom") {
       t = u;
+    } else if (a == "CopyCtor") {
+      AlignedVector<T> tmp(u);
+      t.swap(tmp);
     } else if (a == "Swap") {
       v[0].swap(v[1]);
     } else if (a == "Clear") {
       t.clear();
     } else if (a == "Insert") {
-      t.insert(t.begin() + (ptrdiff_t)arg["pos"].num(), Enc<T>::to(arg["x"].num()));
+      t.insert(t.begin() + (ptrdiff_t)arg["pos"].num(), val);
+    } else if (a == "InsertMid") {
+      t.insert(t.begin() + (ptrdiff_t)(t.size() / 2), val);
     } else if (a == "Allocate") {
       aligned_allocator<T> al;
       const std::string &rel = arg["rel"].str();
@@ -400,6 +577,13 @@ struct VecWorld : IWorld
     } else {
       o.set("ret", "unknown action " + a);
     }
+  }
+
+  Json step(const Json &act) override
+  {
+    Json o             = Json::object();
+    const T *before[2] = {v[0].data(), v[1].data()};
+    perform(act["a"].str(), act["arg"], o);
     Json it = Json::array(), sz = Json::array(), md = Json::array(), cp = Json::array(), mv = Json::array();
     for (int k = 0; k < 2; ++k) {
       it.push(items(k));
@@ -413,6 +597,7 @@ struct VecWorld : IWorld
     o.set("mod64", md);
     o.set("cap", cp);
     o.set("moved", mv);
+    Life<T>::report(o);
     return o;
   }
 };
@@ -432,6 +617,14 @@ struct World
       w = new VecWorld<S12>();
     else if (v == "s64")
       w = new VecWorld<S64>();
+    else if (v == "f8")
+      w = new VecWorld<double>();
+    else if (v == "nest")
+      w = new VecWorld<Nest>();
+    else if (v == "vany")
+      w = new VecWorld<VAny>();
+    else if (v == "trk")
+      w = new VecWorld<Tracked>();
     else
       w = new VecWorld<int>();
   }
